@@ -112,6 +112,8 @@ type explorer struct {
 	maxVectors int
 	doneSeen   int
 	usesStubs  bool
+	crossChecked int
+	crossUnknown int
 	qcache     sync.Map // qkey -> "sat"/"unsat"
 	cacheHits  atomic.Int64
 }
@@ -582,6 +584,9 @@ func (ps *pathState) assertion(c *term, label string) {
 		ex.asserts[label]++
 		ex.mu.Unlock()
 		r := ps.check(tNot(c))
+		if ps.w.cross != nil && (r == "sat" || r == "unsat") {
+			ps.crossCheck(tNot(c), r, label)
+		}
 		if r == "unsat" {
 			ps.popQuery()
 			ps.assert(c)
@@ -606,6 +611,58 @@ func (ps *pathState) assertion(c *term, label string) {
 		panic(pathEnd{"violation", label})
 	}
 	ps.assert(c)
+}
+
+// crossCheck re-decides pc ∧ q from scratch on the second solver and compares.
+func (ps *pathState) crossCheck(q *term, primary string, label string) {
+	var defs strings.Builder
+	n := 0
+	pr := &printer{names: map[*term]string{}, defs: &defs, n: &n}
+	vars := map[string]int{}
+	var walk func(t *term, seen map[*term]bool)
+	walk = func(t *term, seen map[*term]bool) {
+		if seen[t] {
+			return
+		}
+		seen[t] = true
+		if t.op == "var" {
+			vars[t.name] = t.w
+		}
+		for _, a := range t.args {
+			walk(a, seen)
+		}
+	}
+	seen := map[*term]bool{}
+	var asserts strings.Builder
+	for _, c := range append(append([]*term{}, ps.pc...), q) {
+		walk(c, seen)
+	}
+	var decl strings.Builder
+	names := make([]string, 0, len(vars))
+	for v := range vars {
+		names = append(names, v)
+	}
+	sort.Strings(names)
+	for _, v := range names {
+		fmt.Fprintf(&decl, "(declare-const %s %s)\n", v, sortOf(vars[v]))
+	}
+	for _, c := range append(append([]*term{}, ps.pc...), q) {
+		asserts.WriteString("(assert " + pr.ref(c) + ")\n")
+	}
+	cs := ps.w.cross
+	cs.send("(push 1)\n" + decl.String() + defs.String() + asserts.String())
+	r2 := cs.checkSat()
+	cs.send("(pop 1)\n")
+	ex := ps.ex
+	ex.mu.Lock()
+	ex.crossChecked++
+	if r2 == "unknown" {
+		ex.crossUnknown++
+	}
+	ex.mu.Unlock()
+	if r2 != "unknown" && r2 != primary {
+		panic(engineFault{fmt.Sprintf("solver disagreement on assertion %s: %s says %s, %s says %s", label, ps.w.solver.name, primary, cs.name, r2)})
+	}
 }
 
 func (ps *pathState) inputVars() []*term {
